@@ -13,6 +13,7 @@ c_Vecs2 == {"v1", "v2"}
 c_ALk == {"alk"}
 c_MValsN == {"b", "g"}
 c_Acc1 == {1}
+c_Ids5 == {"a", "b", "c", "d", "e"}
 c_Ids3g == {"a", "b", "g"}
 c_Vecs1b == {"v1", "vbad"}
 c_Vecs2b == {"v1", "v2", "vbad"}
